@@ -29,7 +29,47 @@ func (ast *Ast) EquivalentCall(other *Ast) bool {
 		other.Callables == nil || other.Callables.Table == nil {
 		return false
 	}
-	return ast.Call.EquivalentTo(other.Call, ast.Callables, other.Callables)
+	return ast.Call.EquivalentTo(other.Call, ast.Callables, other.Callables) &&
+		ast.equivalentStructs(other)
+}
+
+// Parameters of struct type are compared by type name, so the definitions of
+// the struct types both sides declare must agree as well: same members, with
+// the same types.  As for parameters, the names of file types may differ.
+func (ast *Ast) equivalentStructs(other *Ast) bool {
+	for _, st := range ast.StructTypes {
+		for _, ot := range other.StructTypes {
+			if st.Id != ot.Id {
+				continue
+			}
+			if len(st.Members) != len(ot.Members) {
+				util.PrintInfo("compare",
+					"Struct %s member count mismatch.", st.Id)
+				return false
+			}
+			for _, m := range st.Members {
+				var om *StructMember
+				for _, x := range ot.Members {
+					if x.Id == m.Id {
+						om = x
+					}
+				}
+				if om == nil {
+					util.PrintInfo("compare",
+						"Struct member %s.%s not found.", st.Id, m.Id)
+					return false
+				} else if m.Tname.ArrayDim != om.Tname.ArrayDim ||
+					m.Tname.MapDim != om.Tname.MapDim ||
+					m.isFile != om.isFile ||
+					(m.isFile != KindIsFile && m.Tname.Tname != om.Tname.Tname) {
+					util.PrintInfo("compare",
+						"Struct member %s.%s type mismatch.", st.Id, m.Id)
+					return false
+				}
+			}
+		}
+	}
+	return true
 }
 
 // Two calls are semantically equivalent if their (possibly aliased) names are
